@@ -526,3 +526,25 @@ Lemma adc_rejects (img : arr QcS) (g : gainrep) (sat : option Qc) (warn : bool) 
 Proof.
   intros [->|(gr & gc & Hd & H)]; [apply adc_bad_ndim | now apply (adc_gain_shape_mismatch img g sat warn gr gc)].
 Qed.
+
+(* the four gain forms agree when they describe the same gain: a scalar g, the one-coefficient polynomial [g],
+   a frame filled with g, a one-slice cube filled with g *)
+Lemma adc_gain_forms_agree (img : arr QcS) (v : Qc) (a : arr QcS) (c : cube QcS) sat warn :
+  nr a = nr img -> nc a = nc img -> (forall i j, get a i j = v) ->
+  cnk c = 1 -> cnr c = nr img -> cnc c = nc img -> (forall i j, cget c 0 i j = v) ->
+  exists w d0 d1 d2 d3,
+    adc img (G0 v) sat warn = Ok (w, d0) /\ adc img (G1 [v]) sat warn = Ok (w, d1) /\
+    adc img (G2 a) sat warn = Ok (w, d2) /\ adc img (G3 c) sat warn = Ok (w, d3) /\
+    forall i j, 0 <= i < nr img -> 0 <= j < nc img ->
+      get d1 i j = get d0 i j /\ get d2 i j = get d0 i j /\ get d3 i j = get d0 i j.
+Proof.
+  intros Ha1 Ha2 Ha Hc0 Hc1 Hc2 Hc.
+  destruct (adc_ok img (G0 v) sat warn I) as (d0 & A0 & _ & _ & B0).
+  destruct (adc_ok img (G1 [v]) sat warn I) as (d1 & A1 & _ & _ & B1).
+  destruct (adc_ok img (G2 a) sat warn (conj Ha1 Ha2)) as (d2 & A2 & _ & _ & B2).
+  destruct (adc_ok img (G3 c) sat warn) as (d3 & A3 & _ & _ & B3); [cbn [gain_fits]; lia|].
+  exists (warn && saturated sat img)%bool, d0, d1, d2, d3. repeat split; try assumption.
+  - rewrite B1, B0 by assumption. reflexivity.
+  - rewrite B2, B0 by assumption. cbn [gain_poly]. now rewrite Ha.
+  - rewrite B3, B0 by assumption. cbn [gain_poly]. rewrite Hc0. change (zrange 1) with [0]. cbn [map]. now rewrite Hc.
+Qed.
